@@ -45,6 +45,9 @@ def run(ctx, rep):
     # bindings made by --set are in scope for every option: the --set stage is outermost (shared with C03)
     from rules import pipeline_rules as _P
     _P.order(rep, ctx.lib)
+    _r = rep.rules[-1]
+    _r.instances = [i for i in _r.instances if "PreSetCollection" in i["key"] or i["key"].startswith("anchor-missing")]
+    _r.floor = 1
     lib = ctx.lib
     tab = common.table("context_frame.toml")
     cadt = lib.adts.get("processor::Context")
